@@ -264,12 +264,12 @@ def host_key(a: int, b: int, data: bytes) -> bool:
     _install_key_stub()
     try:
         if kind == 'rsa':
-            if not (0 <= a < 2 ** P['EBITS'] and 0 <= b < 2 ** P['NBITS']) or data != b'':
+            if not (1 <= a < 2 ** P['EBITS'] and 1 <= b < 2 ** P['NBITS']) or data != b'':     # key parameters are positive
                 return True
             wire, cls = ref.key_rsa(a, b), key.SshHostKeyRSA
             check = lambda obj: (obj.public_key.params.public_exponent, obj.public_key.params.modulus) == (a, b)   # noqa: E731
         elif kind == 'dss':
-            if not (0 <= a < 2 ** 24 and 0 <= b < 2 ** 24) or data != b'':
+            if not (1 <= a < 2 ** 24 and 1 <= b < 2 ** 24) or data != b'':
                 return True
             values = {'p': 0x00c1, 'q': 0x83, 'g': 5, 'y': 7}
             values[P['SLOT'][0]], values[P['SLOT'][1]] = a, b
